@@ -1,3 +1,3 @@
 import CobaVerif.Driver.Loop
--- stub: replaced when the C14 model exists
-def main : IO Unit := Coba.J.runLoop (fun _ => .error "C14 driver not implemented")
+import CobaVerif.Driver.C14
+def main : IO Unit := Coba.J.runLoop Coba.C14.Driver.handle
